@@ -286,3 +286,78 @@ func must(err error) {
 }
 
 var _ = fmt.Sprintf
+
+// addSourceInfo attaches a SourceCodeInfo to the file as protoc would: one location per element (syntax, package,
+// imports, messages, fields, oneofs, nested types, enums, enum values, services, methods) with leading, trailing and
+// detached comments.  The comment texts are hostile to a Go emitter (comment terminators, build-constraint look-alikes,
+// tabs, non-ASCII, blank lines).
+func addSourceInfo(fp *descriptorpb.FileDescriptorProto) {
+	sci := &descriptorpb.SourceCodeInfo{}
+	line := int32(0)
+	texts := []string{
+		" plain comment for %s\n",
+		" two lines for %s\n second line */ not the end\n",
+		" go:build ignore\n build ignore (%s)\n",
+		"\ttabbed %s \u00e9\u4e16\u754c \\ backslash \"quoted\"\n",
+		" %s\n\n blank line above\n",
+		"/* %s */\n",
+	}
+	n := 0
+	add := func(what string, path ...int32) {
+		line += 3
+		t := texts[n%len(texts)]
+		n++
+		loc := &descriptorpb.SourceCodeInfo_Location{Path: append([]int32{}, path...), Span: []int32{line, 0, line + 1, 1},
+			LeadingComments: proto.String(fmt.Sprintf(t, what))}
+		if n%2 == 0 {
+			loc.TrailingComments = proto.String(fmt.Sprintf(" trailing for %s\n", what))
+		}
+		if n%3 == 0 {
+			loc.LeadingDetachedComments = []string{fmt.Sprintf(" detached one (%s)\n", what), " detached two\n"}
+		}
+		sci.Location = append(sci.Location, loc)
+	}
+	add("syntax", 12)
+	add("package "+fp.GetPackage(), 2)
+	for i := range fp.Dependency {
+		add("import", 3, int32(i))
+	}
+	var msg func(m *descriptorpb.DescriptorProto, path []int32)
+	enumf := func(e *descriptorpb.EnumDescriptorProto, path []int32) {
+		add("enum "+e.GetName(), path...)
+		for i, v := range e.Value {
+			add("value "+v.GetName(), append(append([]int32{}, path...), 2, int32(i))...)
+		}
+	}
+	msg = func(m *descriptorpb.DescriptorProto, path []int32) {
+		if m.GetOptions().GetMapEntry() {
+			return
+		}
+		add("message "+m.GetName(), path...)
+		for i, f := range m.Field {
+			add("field "+f.GetName(), append(append([]int32{}, path...), 2, int32(i))...)
+		}
+		for i, o := range m.OneofDecl {
+			add("oneof "+o.GetName(), append(append([]int32{}, path...), 8, int32(i))...)
+		}
+		for i, c := range m.NestedType {
+			msg(c, append(append([]int32{}, path...), 3, int32(i)))
+		}
+		for i, e := range m.EnumType {
+			enumf(e, append(append([]int32{}, path...), 4, int32(i)))
+		}
+	}
+	for i, m := range fp.MessageType {
+		msg(m, []int32{4, int32(i)})
+	}
+	for i, e := range fp.EnumType {
+		enumf(e, []int32{5, int32(i)})
+	}
+	for i, sv := range fp.Service {
+		add("service "+sv.GetName(), 6, int32(i))
+		for j, me := range sv.Method {
+			add("method "+me.GetName(), 6, int32(i), 2, int32(j))
+		}
+	}
+	fp.SourceCodeInfo = sci
+}
